@@ -2,9 +2,11 @@
 Spec/ValidSpec.lean — the documented input formats (C17), written independently of the validators.
 
 The library documents its inputs as "array_like, shape (3,)", "shape (n,3)", "float", … and its own
-error messages speak of "float compatible entries".  `hasShape sh v` is that notion, checked TOP-DOWN
+error messages speak of "float compatible entries" — numbers: `None`, strings, complex numbers and other objects are
+not (the repaired `make_float_array` refuses them; before it, numpy's coercion of `None` to nan and of numeric strings
+was accepted).  `hasShape sh v` is that notion, checked TOP-DOWN
 against a given shape (the validator model infers a shape bottom-up with `shapeOf`); `isEntry` says
-which leaves are float compatible (assumption on numpy recorded in Model/Validators.lean).
+which leaves are float compatible.
 -/
 import MagpyVerif.Model.Validators
 
@@ -12,11 +14,11 @@ namespace MagpyVerif.Valid
 
 /-- a float-compatible entry of an array_like -/
 def isEntry : PyVal → Bool
-  | .none => true
   | .bool _ => true
   | .num _ => true
+  | .flt _ => true
   | .npbool _ => true
-  | .str s => (strFloat s).isSome
+  | .nanf => true         -- nan is a float
   | _ => false
 
 /-- "`v` is an array_like of shape `sh`": a rectangular nesting of lists/tuples whose level-i
@@ -43,6 +45,8 @@ def shapeCond (dims : List Nat) (shapeM1 : Int) (length : Nat) (sh : List Nat) :
 /-- "a number (int, float)" -/
 def isRealNumber : PyVal → Bool
   | .num _ => true
+  | .flt _ => true
+  | .nanf => true
   | .bool _ => true       -- Python's bool is a subclass of int
   | _ => false
 
@@ -51,13 +55,17 @@ where the attribute is a size -/
 def docScalar (allowNone nonNegative : Bool) : PyVal → Bool
   | .none => allowNone
   | .num n => !nonNegative || decide (0 ≤ n)
+  | .flt n => !nonNegative || decide (0 ≤ n)
+  | .nanf => true         -- nan is a float and is not negative (`nan < 0` is false): accepted by the code, see C17 `scalar_accepts_nan`
   | .bool _ => true
   | _ => false
 
 /-- the float a documented scalar denotes -/
 def scalarValue : PyVal → Stored
   | .num n => .scalar (.fin n)
+  | .flt n => .scalar (.fin n)
   | .bool b => .scalar (.fin (if b then 1 else 0))
+  | .nanf => .scalar .nan
   | _ => .none
 
 /-- documented format "`None` or array_like of shape (k,)", all entries > 0 where the attribute is a size
@@ -81,6 +89,27 @@ def docRows (fixed : Option Nat) (nmin : Nat) (v : PyVal) : Bool :=
       (match fixed with
        | some n => outerLen v == n
        | Option.none => decide (nmin ≤ outerLen v))
+
+/-- a separator row of `Polyline.vertices`: the row (None, None, None) -/
+def isNoneRow3 : PyVal → Bool
+  | .seq [.none, .none, .none] => true
+  | _ => false
+
+/-- documented format of `Polyline.vertices`: `None`, or an ndarray of shape (n,3), or a list/tuple of n rows each of which
+is an array_like of 3 numbers or the separator row (None, None, None) that splits the line into disconnected parts
+(CHANGELOG 4.4.0; stored as a nan row); n ≥ 2 -/
+def docPolyVertices (v : PyVal) : Bool :=
+  match v with
+  | .none => true
+  | .arr sh _ => (match sh with
+    | [n, 3] => decide (2 ≤ n)
+    | _ => false)
+  | .seq rows => decide (2 ≤ rows.length) && rows.all fun r => hasShape [3] r || isNoneRow3 r
+  | _ => false
+
+/-- the stored rows: a separator row is stored as three nan -/
+def polyRowData (r : PyVal) : List FVal :=
+  if isNoneRow3 r then [.nan, .nan, .nan] else flat r
 
 /-- documented format of `position`: array_like of shape (3,) or (m,3), m ≥ 1 -/
 def docPosition (v : PyVal) : Bool :=
@@ -112,6 +141,61 @@ def docHandedness : PyVal → Bool
 empty axes (the code additionally limits the rank to 19) -/
 def DocPixel (v : PyVal) : Prop :=
   v = .none ∨ (isArrayLike v = true ∧ ∃ ns : List Nat, hasShape (ns ++ [3]) v = true ∧ ns.length ≤ 18 ∧ 0 ∉ ns)
+
+/-! ### arguments of move / rotate / getB -/
+
+/-- documented: "start: int or str, default 'auto'" -/
+def docStart : PyVal → Bool
+  | .num _ => true
+  | .bool _ => true        -- Python's bool is an int
+  | .str s => s == "auto"
+  | _ => false
+
+/-- documented: "degrees: bool" -/
+def docDegrees : PyVal → Bool
+  | .bool _ => true
+  | _ => false
+
+/-- documented: field is one of "B", "H", "M", "J" -/
+def docField : PyVal → Bool
+  | .str s => s == "B" || s == "H" || s == "M" || s == "J"
+  | _ => false
+
+/-- documented: output is "ndarray" or "dataframe" -/
+def docOutput : PyVal → Bool
+  | .str s => s == "ndarray" || s == "dataframe"
+  | _ => false
+
+/-- the number zero -/
+def isZero : PyVal → Bool
+  | .num 0 => true
+  | .flt 0 => true
+  | .bool false => true
+  | _ => false
+
+/-- documented: "anchor: None, 0 or array_like with shape (3,) or (n,3)", n ≥ 1 -/
+def docAnchor (v : PyVal) : Bool :=
+  match v with
+  | .none => true
+  | v => isZero v || (isArrayLike v && (hasShape [3] v || (hasShape [outerLen v, 3] v && decide (1 ≤ outerLen v))))
+
+/-- documented: "angle: int, float or array_like with shape (n,)" -/
+def docAngle (v : PyVal) : Bool :=
+  isRealNumber v || (isArrayLike v && hasShape [outerLen v] v)
+
+/-- documented: "axis: str or array_like, shape (3,)": one of "x", "y", "z" or a vector that is not (0,0,0) -/
+def docAxisVec (v : PyVal) : Bool :=
+  isArrayLike v && hasShape [3] v && !(flat v).all (· == .fin 0)
+
+def docAxis : PyVal → Bool
+  | .str s => s == "x" || s == "y" || s == "z"
+  | v => docAxisVec v
+
+/-- documented: "orientation: None or scipy Rotation" (with finite quaternions; for the attribute: not empty) -/
+def docOrientation (isAttr : Bool) : PyVal → Bool
+  | .none => true
+  | .rot n finite => finite && !(isAttr && n == 0)
+  | _ => false
 
 /-- the reading of a `shape` argument with `None` entries (check_format_input_vector2): on the axes both
 the array and `shape` have, a given size must be matched -/
